@@ -238,6 +238,81 @@ def run(chk):
             work.extend(parents.get(x, ()))
         chk.ob("O9.3", f"{a.name}: parent chain reaches race()", reach, a.node, f"parent attr={parent_attr.get(a.name)} parents={sorted(parents.get(a.name, []))}")
 
+    # cleanup that runs BEFORE the forwarding send must not be able to block it for good: the driver actor closes the driver (metrics store) first; a failing close
+    # raises out of the handler, the actor framework re-delivers the message, and the second delivery must get past the cleanup
+    from sa import pat
+    met_m = repo.module("esrally/metrics.py")
+    chk.use(met_m)
+    DA = model.actor("DriverActor")
+    for hn in ("receiveMsg_BenchmarkFailure", "receiveMsg_BenchmarkCancelled", "receiveMsg_PoisonMessage"):
+        f = DA.methods.get(hn)
+        if f is None:
+            continue
+        g = cfg_of(f)
+        fwd = [c for c in source.calls_in(f, attr="send")]
+        pre = [c for c in walk_body(f) if isinstance(c, ast.Call) and not is_logging_call(c) and last_attr(c.func) not in ("send", "format", "str", "BenchmarkFailure", "BenchmarkCancelled")
+               and any(g.path_exists(g.node_of(c), g.node_of(s_)) and g.node_of(c) is not g.node_of(s_) for s_ in fwd)]
+        for c in pre:
+            ok = u(c.func) == "self.driver.close"
+            chk.ob("O9.3", f"DriverActor.{hn}: the only work before forwarding is the re-entrant driver close", ok, c, short(c, 60), key=f"esrally/driver/driver.py:DriverActor.{hn}:pre-forward:{short(c, 40)}")
+    dcl = drv.methods(drv.cls("Driver")).get("close")
+    mcl = met_m.methods(met_m.cls("MetricsStore")).get("close")
+    if dcl is None or mcl is None:
+        raise AnchorMissing("Driver.close / MetricsStore.close")
+    sc = [c for c in source.calls_in(dcl, attr="close")]
+    ok = bool(sc) and all(pat.guarded(c, "self.metrics_store.opened") is not None for c in sc)
+    chk.ob("O9.3", "Driver.close closes the metrics store only while it is marked open", ok, sc[0] if sc else dcl, "")
+    gm_ = cfg_of(mcl)
+    clr = [n for n in walk_body(mcl) if isinstance(n, ast.Assign) and any(is_self_attr(t, "opened") for t in n.targets) and source.is_const(n.value, False)]
+    fall = [c for c in walk_body(mcl) if isinstance(c, ast.Call) and not is_logging_call(c)]
+    ok = len(clr) >= 1 and all(gm_.dominated_by_nodes(gm_.node_of(c), [gm_.node_of(x) for x in clr]) for c in fall)
+    late = [c for c in fall if not (clr and gm_.dominated_by_nodes(gm_.node_of(c), [gm_.node_of(x) for x in clr]))]
+    chk.ob("O9.3", "MetricsStore.close marks the store closed before anything in it can fail", ok, late[0] if late else mcl,
+           "" if ok else f"`{short(late[0], 40)}` runs while the store is still marked open: if it keeps failing, every re-delivery of BenchmarkFailure fails in close() again and the failure is never forwarded",
+           key="esrally/metrics.py:MetricsStore.close:closed-before-fallible")
+
+    # a failing parameter source / scheduler must not be mistaken for the normal end of the task
+    chk.rule("O9.5c", "in the schedule generator the only exception that ends the schedule normally is StopIteration (exhaustion); every other exception of a parameter source or "
+             "scheduler propagates to the executor, which turns it into a failure", 2,
+             "a parameter source that raises mid-task: the task is treated as finished, the worker reports JoinPointReached and the race ends as success")
+    SH = drv.cls("ScheduleHandle")
+    shc = drv.methods(SH).get("__call__")
+    if shc is None:
+        raise AnchorMissing("ScheduleHandle.__call__")
+    n_h = 0
+    for t_ in [n for n in walk_body(shc) if isinstance(n, ast.Try)]:
+        for h in t_.handlers:
+            reraises = any(isinstance(x, ast.Raise) for x in ast.walk(h))
+            if reraises:
+                continue
+            n_h += 1
+            names = [dotted(e_) or u(e_) for e_ in (h.type.elts if isinstance(h.type, ast.Tuple) else ([h.type] if h.type is not None else []))]
+            ok = names == ["StopIteration"]
+            chk.ob("O9.5c", "schedule generator ends normally only on StopIteration", ok, h, f"except {', '.join(names) or '(bare)'} -> ends the schedule without error",
+                   key=f"esrally/driver/driver.py:ScheduleHandle.__call__:swallow:{len([x for x in walk_body(shc) if isinstance(x, ast.ExceptHandler) and x.lineno < h.lineno])}")
+    chk.ob("O9.5c", "exhaustion handlers located", n_h >= 2, shc, f"{n_h} handler(s)")
+
+    # no_retry reports a handler's failure to the SENDER of the message; once the handler has asked an actor to exit, nothing that can fail may follow in that handler
+    # (the report would go to an actor that is already gone and the race would hang)
+    chk.rule("O9.2x", "in a handler guarded by no_retry no fallible work follows a send of ActorExitRequest: only sends, logging and plain stores may come after it", 1,
+             "a failure at the very end (final flush, results calculation, race store) is reported to an exited actor: race() gets neither a failure nor Success")
+    n_x = 0
+    for a in model.actors:
+        for hn, f in model.handlers(a).items():
+            if handler_guard(f) != "no_retry":
+                continue
+            g = cfg_of(f)
+            exits_ = [c for c in source.calls_in(f, attr="send") if len(c.args) >= 2 and isinstance(c.args[1], ast.Call) and last_attr(c.args[1].func) == "ActorExitRequest"]
+            for x in exits_:
+                n_x += 1
+                after = [c for c in walk_body(f) if isinstance(c, ast.Call) and c is not x and not is_logging_call(c) and last_attr(c.func) not in ("send", "ActorExitRequest")
+                         and not any(c in list(ast.walk(s_)) for s_ in source.calls_in(f, attr="send"))
+                         and g.node_of(c) is not g.node_of(x) and g.path_exists(g.node_of(x), g.node_of(c), edge_ok=g.normal_edge)]
+                chk.ob("O9.2x", f"{a.name}.{hn}: nothing fallible after the exit request to {u(x.args[0])}", not after, after[0] if after else x,
+                       "" if not after else f"`{short(after[0], 60)}` can fail after {u(x.args[0])} was told to exit; no_retry then reports the failure to the sender, which no longer exists",
+                       key=f"{a.module.relpath}:{a.name}.{hn}:after-exit-request")
+    chk.ob("O9.2x", "exit requests in guarded handlers located", n_x >= 1, model.actor("BenchmarkActor").node, f"{n_x} site(s)")
+
     # PoisonMessage in classes that create children
     chk.rule("O9.3p", "every actor class that creates child actors has a receiveMsg_PoisonMessage that sends a BenchmarkFailure (or forwards) to its parent on every path", 5,
              "an undeliverable message to a dead child is never reported")
